@@ -25,7 +25,7 @@ ASSUMPTIONS = [
 
 def budgets(tier):
     if tier == "quick":
-        return {"examples": 300, "max_s": 80, "shrink_s": 20, "shards": 1}
+        return {"examples": 260, "max_s": 80, "shrink_s": 20, "shards": 1}
     return {"examples": 1500, "max_s": 700, "shrink_s": 90, "shards": 16}
 
 
@@ -184,9 +184,12 @@ def check_case(case):
             kind = op["op"]
             if kind in ("reveal", "cli_reveal"):
                 unobs = sorted(int(p.plate_id) for p in s.plates if not bool(np.all(p.observation_mask)))
-                if not unobs:
-                    continue
-                ids = [unobs[i % len(unobs)] for i in op["picks"]]
+                every = sorted(int(p.plate_id) for p in s.plates)
+                # mostly plates still to reveal; now and then only plates that are already observed (a repeated / resumed reveal step)
+                pool = every if (not unobs or op["picks"][0] % 3 == 0) else unobs
+                if op["picks"][0] % 5 == 0:
+                    pool = [p_ for p_ in every if p_ not in unobs] or pool
+                ids = [pool[i % len(pool)] for i in op["picks"]]
                 if kind == "reveal":
                     s = reveal_plates(s, ids)
                 else:
